@@ -1,16 +1,20 @@
 #!/usr/bin/env python3
-# usage: show.py file.v LINE  -> compiles the file up to LINE (inclusive) then prints goals
-import sys,subprocess,os
-f,line=sys.argv[1],int(sys.argv[2])
-src=open(f).read().split('\n')
-head='\n'.join(src[:line])+'\nShow.\n'
-tmp=os.path.join(os.path.dirname(f),'zz_show_tmp.v')
-open(tmp,'w').write(head)
-p=subprocess.run(['coqc','-Q','.','GoMC',tmp],capture_output=True,text=True,cwd='/verif/coq')
-out=p.stdout+p.stderr
-print(out[-3500:])
-for e in ['.vo','.glob','.vok','.vos','.v']:
-    try: os.remove(tmp[:-2]+e)
-    except: pass
-try: os.remove(os.path.join(os.path.dirname(f),'.zz_show_tmp.aux'))
-except: pass
+# usage (from anywhere): tools/show.py <file.v relative to /verif/coq or absolute> LINE
+# compiles the first LINE lines of the file followed by "Show." and prints the goals.
+# The temporary file lives OUTSIDE coq/ (under .work/show) so it never enters _CoqProject.
+import sys, subprocess, os
+f, line = sys.argv[1], int(sys.argv[2])
+if not os.path.isabs(f):
+    f = os.path.join('/verif/coq', f)
+src = open(f).read().split('\n')
+d = '/verif/.work/show'
+os.makedirs(d, exist_ok=True)
+tmp = os.path.join(d, 'zz_show_%d.v' % os.getpid())
+open(tmp, 'w').write('\n'.join(src[:line]) + '\nShow.\n')
+p = subprocess.run(['coqc', '-Q', '/verif/coq', 'GoMC', tmp], capture_output=True, text=True)
+print((p.stdout + p.stderr)[-3500:])
+for e in ['.vo', '.glob', '.vok', '.vos', '.v']:
+    try: os.remove(tmp[:-2] + e)
+    except OSError: pass
+try: os.remove(os.path.join(d, '.' + os.path.basename(tmp)[:-2] + '.aux'))
+except OSError: pass
